@@ -423,6 +423,8 @@ def c11_explore(g, seed, budget):
 
 
 def run_case(g, case):
+    if case.get("kind") == "C16":
+        return c16_case(g, case["steps"])
     if case.get("kind") == "C11":
         return c11_case(g, case["steps"])
     if case.get("kind") == "C19":
@@ -436,6 +438,327 @@ def run_case(g, case):
     raise ValueError(case)
 
 
+# ------------------------------------------------------------------------------------------------ C16
+def c16_universe(g):
+    n = {}
+    n["ir0"], n["ir1"] = g.IR(uuid=U(1)), g.IR(uuid=U(2))
+    for i in range(4):
+        n["m%d" % i] = g.Module(name="m%d" % i, uuid=U(10 + i))
+    for i in range(3):
+        n["s%d" % i] = g.Section(name="s%d" % i, uuid=U(20 + i))
+        n["bi%d" % i] = g.ByteInterval(uuid=U(30 + i), size=8)
+        n["y%d" % i] = g.Symbol(name="y%d" % i, uuid=U(50 + i))
+        n["p%d" % i] = g.ProxyBlock(uuid=U(60 + i))
+    for i in range(4):
+        n["b%d" % i] = (g.CodeBlock if i % 2 else g.DataBlock)(uuid=U(40 + i), offset=i, size=1)
+    n["m0"].ir = n["ir0"]; n["m1"].ir = n["ir0"]; n["m2"].ir = n["ir1"]
+    n["s0"].module = n["m0"]; n["s1"].module = n["m0"]; n["s2"].module = n["m2"]
+    n["bi0"].section = n["s0"]; n["bi1"].section = n["s0"]; n["bi2"].section = n["s2"]
+    n["b0"].byte_interval = n["bi0"]; n["b1"].byte_interval = n["bi0"]; n["b2"].byte_interval = n["bi2"]
+    n["y0"].module = n["m0"]; n["y1"].module = n["m2"]; n["p0"].module = n["m0"]; n["p1"].module = n["m2"]
+    return n
+
+
+C16_COLLS = {"ir0.modules": ("m", "list"), "m0.sections": ("s", "set"), "m0.symbols": ("y", "set"),
+             "m0.proxies": ("p", "set"), "s0.byte_intervals": ("bi", "set"), "bi0.blocks": ("b", "set"),
+             "bi0.symexprs": ("k", "dict")}
+
+
+def c16_get(n, cname):
+    o, attr = cname.split(".")
+    if attr == "symexprs":
+        return n[o].symbolic_expressions
+    return getattr(n[o], attr)
+
+
+def c16_owner_of(g, x):
+    return parent_of_node(g, x)
+
+
+def parent_of_node(g, x):
+    if isinstance(x, g.ByteBlock):
+        return x.byte_interval
+    if isinstance(x, g.ByteInterval):
+        return x.section
+    if isinstance(x, g.Module):
+        return x.ir
+    return x.module
+
+
+def c16_case(g, steps):
+    """each step: [collection, op, args...]; the real collection is compared with a built-in list/set/dict that
+    follows the same operation, modulo the documented differences (order of node sets, moving instead of duplicating)"""
+    n = c16_universe(g)
+    errs = []
+    models = {}
+    for cname, (pref, kind) in C16_COLLS.items():
+        c = c16_get(n, cname)
+        models[cname] = list(c) if kind == "list" else (dict(c) if kind == "dict" else set(c))
+
+    def resync():
+        # elements moved by an operation on one collection leave the others: refresh the other models from ownership
+        for cname, (pref, kind) in C16_COLLS.items():
+            if kind == "dict":
+                continue
+            owner = n[cname.split(".")[0]]
+            if kind == "list":
+                models[cname] = [x for x in models[cname] if parent_of_node(g, x) is owner]
+            else:
+                models[cname] = {x for x in models[cname] if parent_of_node(g, x) is owner}
+
+    def outcome(f):
+        try:
+            return ("ok", f())
+        except Exception as e:
+            return ("exc", type(e).__name__)
+
+    def same(a, b, kind):
+        if a[0] != b[0]:
+            return False
+        if a[0] == "exc":
+            return a[1] == b[1]
+        x, y = a[1], b[1]
+        if isinstance(x, (set, frozenset)) or isinstance(y, (set, frozenset)):
+            return set(x) == set(y) and type(x) in (set, frozenset)
+        if isinstance(y, list) and not isinstance(x, list):
+            return list(x) == y
+        return x == y or (x is y)
+    for st in steps:
+        cname, op = st[0], st[1]
+        pref, kind = C16_COLLS[cname]
+        real = c16_get(n, cname)
+        model = models[cname]
+        A = [n[a] if isinstance(a, str) and a in n else a for a in st[2:]]
+        rr = mm = None
+        if kind == "set":
+            if op in ("add", "discard", "remove"):
+                rr = outcome(lambda: getattr(real, op)(A[0])); mm = outcome(lambda: getattr(model, op)(A[0]))
+            elif op == "pop":
+                rr = outcome(lambda: real.pop())
+                if rr[0] == "ok":
+                    if rr[1] not in model:
+                        errs.append("%s.pop() returned a non-member" % cname)
+                    model.discard(rr[1]); mm = rr
+                else:
+                    mm = outcome(lambda: set(model).pop()) if not model else ("ok", None)
+            elif op == "clear":
+                rr = outcome(real.clear); mm = outcome(model.clear)
+            elif op == "update":
+                others = [[n[x] for x in grp] for grp in st[2:]]
+                rr = outcome(lambda: real.update(*others)); mm = outcome(lambda: model.update(*others))
+            elif op in ("ior", "iand", "isub", "ixor"):
+                other = {n[x] for x in st[2]}
+                def do(c, o=other, op=op):
+                    if op == "ior": c |= o
+                    elif op == "iand": c &= o
+                    elif op == "isub": c -= o
+                    else: c ^= o
+                    return None
+                rr = outcome(lambda: do(real)); mm = outcome(lambda: do(model))
+            elif op in ("or", "and", "sub", "xor", "ror", "rand", "rsub", "rxor"):
+                other = {n[x] for x in st[2]}
+                import operator
+                f = {"or": operator.or_, "and": operator.and_, "sub": operator.sub, "xor": operator.xor}[op.lstrip("r") if op.startswith("r") and op != "or" else op]
+                if op.startswith("r") and op != "or":
+                    rr = outcome(lambda: f(other, real)); mm = outcome(lambda: f(other, model))
+                else:
+                    rr = outcome(lambda: f(real, other)); mm = outcome(lambda: f(model, other))
+            elif op in ("le", "ge", "eq", "isdisjoint", "lt", "gt"):
+                other = {n[x] for x in st[2]}
+                f = {"le": lambda c: c <= other, "ge": lambda c: c >= other, "eq": lambda c: c == other,
+                     "isdisjoint": lambda c: c.isdisjoint(other), "lt": lambda c: c < other, "gt": lambda c: c > other}[op]
+                rr = outcome(lambda: f(real)); mm = outcome(lambda: f(model))
+            elif op == "contains":
+                rr = outcome(lambda: A[0] in real); mm = outcome(lambda: A[0] in model)
+        elif kind == "list":
+            if op == "append":
+                rr = outcome(lambda: real.append(A[0]))
+                def mapp():
+                    if A[0] in model: model.remove(A[0])
+                    model.append(A[0])
+                mm = outcome(mapp)
+            elif op == "insert":
+                rr = outcome(lambda: real.insert(A[1], A[0]))
+                def mins():
+                    i = A[1]
+                    if A[0] in model:
+                        # documented difference: a module already in the list is moved, not duplicated
+                        model.remove(A[0])
+                    model.insert(i, A[0])
+                mm = outcome(mins)
+            elif op == "remove":
+                rr = outcome(lambda: real.remove(A[0])); mm = outcome(lambda: model.remove(A[0]))
+            elif op == "pop":
+                rr = outcome(lambda: real.pop(*A)); mm = outcome(lambda: model.pop(*A))
+            elif op == "delitem":
+                def d(c):
+                    del c[A[0]]
+                rr = outcome(lambda: d(real)); mm = outcome(lambda: d(model))
+            elif op == "setitem":
+                def si(c):
+                    c[A[1]] = A[0]
+                if A[0] in model:
+                    continue      # assigning a module that is already in this list: known finding F-C04-1, not explored
+                rr = outcome(lambda: si(real)); mm = outcome(lambda: si(model))
+            elif op == "extend":
+                vals = [n[x] for x in st[2]]
+                if len(set(vals)) != len(vals) or any(v in model for v in vals):
+                    continue
+                rr = outcome(lambda: real.extend(vals)); mm = outcome(lambda: model.extend(vals))
+            elif op == "iadd":
+                vals = [n[x] for x in st[2]]
+                if len(set(vals)) != len(vals) or any(v in model for v in vals):
+                    continue
+                def ia(c):
+                    c += vals
+                rr = outcome(lambda: ia(real)); mm = outcome(lambda: ia(model))
+            elif op == "clear":
+                rr = outcome(real.clear); mm = outcome(model.clear)
+            elif op == "reverse":
+                if len(model) >= 2:
+                    continue      # reverse() assigns modules that are already in the list: known finding F-C04-1
+                rr = outcome(real.reverse); mm = outcome(model.reverse)
+            elif op == "index":
+                rr = outcome(lambda: real.index(A[0])); mm = outcome(lambda: model.index(A[0]))
+            elif op == "count":
+                rr = outcome(lambda: real.count(A[0])); mm = outcome(lambda: model.count(A[0]))
+            elif op == "getitem":
+                rr = outcome(lambda: real[A[0]]); mm = outcome(lambda: model[A[0]])
+            elif op == "getslice":
+                rr = outcome(lambda: real[A[0]:A[1]]); mm = outcome(lambda: model[A[0]:A[1]])
+            elif op == "delslice":
+                def ds(c):
+                    del c[A[0]:A[1]]
+                rr = outcome(lambda: ds(real)); mm = outcome(lambda: ds(model))
+            elif op == "contains":
+                rr = outcome(lambda: A[0] in real); mm = outcome(lambda: A[0] in model)
+        else:
+            mk = lambda k: g.SymAddrConst(k, n["y0"])
+            if op == "setitem":
+                v = mk(A[0])
+                rr = outcome(lambda: real.__setitem__(A[0], v)); mm = outcome(lambda: model.__setitem__(A[0], v))
+            elif op == "delitem":
+                rr = outcome(lambda: real.__delitem__(A[0])); mm = outcome(lambda: model.__delitem__(A[0]))
+            elif op == "pop":
+                rr = outcome(lambda: real.pop(*A)); mm = outcome(lambda: model.pop(*A))
+            elif op == "popitem":
+                rr = outcome(real.popitem)
+                if rr[0] == "ok":
+                    model.pop(rr[1][0], None); mm = rr
+                else:
+                    mm = outcome(lambda: dict().popitem()) if not model else ("ok", None)
+            elif op == "setdefault":
+                v = mk(A[0])
+                rr = outcome(lambda: real.setdefault(A[0], v)); mm = outcome(lambda: model.setdefault(A[0], v))
+            elif op == "update":
+                d = {k: mk(k) for k in st[2]}
+                rr = outcome(lambda: real.update(d)); mm = outcome(lambda: model.update(d))
+            elif op == "clear":
+                rr = outcome(real.clear); mm = outcome(model.clear)
+            elif op == "get":
+                rr = outcome(lambda: real.get(A[0])); mm = outcome(lambda: model.get(A[0]))
+            elif op == "contains":
+                rr = outcome(lambda: A[0] in real); mm = outcome(lambda: A[0] in model)
+            elif op == "getitem":
+                rr = outcome(lambda: real[A[0]]); mm = outcome(lambda: model[A[0]])
+        if rr is None:
+            continue
+        if not same(rr, mm, kind):
+            errs.append("%s.%s%r: real %r, built-in %r" % (cname, op, tuple(st[2:]), rr, mm))
+        resync()
+        # contents
+        for cn, (pf, kd) in C16_COLLS.items():
+            r, m_ = c16_get(n, cn), models[cn]
+            if kd == "list":
+                if list(r) != m_ or len(r) != len(m_):
+                    errs.append("%s contents %r != %r after %r" % (cn, [x.name for x in r], [x.name for x in m_], st))
+            elif kd == "set":
+                if set(r) != m_ or len(r) != len(m_):
+                    errs.append("%s contents differ after %r (real %d, built-in %d)" % (cn, st, len(r), len(m_)))
+            else:
+                if list(r.keys()) != sorted(m_) or any(r[k] is not m_[k] for k in m_) or len(r) != len(m_):
+                    errs.append("%s mapping differs after %r" % (cn, st))
+        # elements stay consistent: membership <=> parent attribute
+        for cn, (pf, kd) in C16_COLLS.items():
+            if kd == "dict":
+                continue
+            owner = n[cn.split(".")[0]]
+            r = c16_get(n, cn)
+            for x in list(r):
+                if parent_of_node(g, x) is not owner:
+                    errs.append("%s holds an element whose parent attribute is %r after %r" % (cn, parent_of_node(g, x), st))
+            for nm, x in n.items():
+                if nm.rstrip("0123456789") == pf and parent_of_node(g, x) is owner and x not in list(r):
+                    errs.append("%s lacks %s although its parent attribute names the owner, after %r" % (cn, nm, st))
+        if errs:
+            break
+    return errs
+
+
+def c16_gen(rng):
+    cname = rng.choice(list(C16_COLLS))
+    pref, kind = C16_COLLS[cname]
+    names = {"m": ["m0", "m1", "m2", "m3"], "s": ["s0", "s1", "s2"], "y": ["y0", "y1", "y2"], "p": ["p0", "p1", "p2"],
+             "bi": ["bi0", "bi1", "bi2"], "b": ["b0", "b1", "b2", "b3"]}.get(pref)
+    if kind == "set":
+        op = rng.choice(["add", "discard", "remove", "pop", "clear", "update", "ior", "iand", "isub", "ixor", "or", "and", "sub",
+                         "xor", "rand", "rsub", "rxor", "le", "ge", "eq", "lt", "gt", "isdisjoint", "contains"])
+        if op in ("add", "discard", "remove", "contains"):
+            return [cname, op, rng.choice(names)]
+        if op in ("pop", "clear"):
+            return [cname, op]
+        if op == "update":
+            return [cname, op] + [rng.sample(names, rng.randint(0, 2)) for _ in range(rng.randint(0, 2))]
+        return [cname, op, rng.sample(names, rng.randint(0, 3))]
+    if kind == "list":
+        op = rng.choice(["append", "insert", "remove", "pop", "delitem", "setitem", "extend", "iadd", "clear", "reverse", "index",
+                         "count", "getitem", "getslice", "delslice", "contains"])
+        if op in ("append", "remove", "index", "count", "contains"):
+            return [cname, op, rng.choice(names)]
+        if op in ("insert", "setitem"):
+            return [cname, op, rng.choice(names), rng.randint(-3, 3)]
+        if op == "pop":
+            return [cname, op] + ([rng.randint(-3, 3)] if rng.random() < 0.5 else [])
+        if op in ("delitem", "getitem"):
+            return [cname, op, rng.randint(-3, 3)]
+        if op in ("extend", "iadd"):
+            return [cname, op, rng.sample(names, rng.randint(0, 2))]
+        if op in ("getslice", "delslice"):
+            return [cname, op, rng.randint(-2, 2), rng.randint(-2, 3)]
+        return [cname, op]
+    op = rng.choice(["setitem", "delitem", "pop", "popitem", "setdefault", "update", "clear", "get", "contains", "getitem"])
+    keys = [0, 2, 4, 9]
+    if op in ("setitem", "delitem", "setdefault", "get", "contains", "getitem"):
+        return [cname, op, rng.choice(keys)]
+    if op == "pop":
+        return [cname, op, rng.choice(keys)] + ([None] if rng.random() < 0.5 else [])
+    if op == "update":
+        return [cname, op, rng.sample(keys, rng.randint(0, 3))]
+    return [cname, op]
+
+
+def c16_explore(g, seed, budget):
+    rng = random.Random(seed)
+    n = 0
+    distinct = set()
+    for _ in range(budget):
+        steps = [c16_gen(rng) for _ in range(rng.randint(1, 10))]
+        n += len(steps)
+        distinct.update(json.dumps(s) for s in steps)
+        errs = c16_case(g, steps)
+        if errs:
+            cur = steps
+            i = 0
+            while i < len(cur):
+                cand = cur[:i] + cur[i + 1:]
+                if cand and c16_case(g, cand):
+                    cur = cand
+                else:
+                    i += 1
+            return {"ok": False, "case": {"kind": "C16", "steps": cur}, "errors": c16_case(g, cur)[:4], "evaluations": n}
+    return {"ok": True, "evaluations": n, "distinct": len(distinct), "sample": steps}
+
+
 def main(argv):
     import gtirb
     if argv[1] == "--replay":
@@ -445,7 +768,7 @@ def main(argv):
         return 1 if errs else 0
     prop, seed, budget = argv[1], int(argv[2]), int(argv[3])
     try:
-        res = {"C19": c19_explore, "C18": c18_explore, "C11": c11_explore}[prop](gtirb, seed, budget)
+        res = {"C19": c19_explore, "C18": c18_explore, "C11": c11_explore, "C16": c16_explore}[prop](gtirb, seed, budget)
     except Exception as e:
         res = {"ok": None, "crash": "%s: %s" % (type(e).__name__, e), "trace": traceback.format_exc()}
     print("RESULT " + json.dumps(res, default=str))
@@ -454,3 +777,5 @@ def main(argv):
 
 if __name__ == "__main__":
     sys.exit(main(sys.argv))
+
+
